@@ -329,7 +329,7 @@ class PipelineCorr(Corr):
     header = HEADER
     requires = ["Model/Pipeline.vo", "Model/Matching.vo", "Model/Filter.vo", "Model/PassFail.vo", "Model/AP.vo", "Base/CaseUtil.vo"]
     shard = 24
-    n_quick = 330
+    n_quick = 160
     n_thorough = 3000
 
     def cases(self, tier, rng):
